@@ -132,8 +132,14 @@ def variant_edge_dominates(body, ev, block, source_pred, ty_prefix, value):
     for sb, place, targets, otherwise in discr_switches(body):
         base_ty = body.local_ty(place["l"])
         if place["p"]:
-            continue
-        if not base_ty.startswith(ty_prefix):
+            # `match (x as Err).0 { .. }`: the matched value is the Err payload of a Result local
+            pr = place["p"]
+            if len(pr) == 2 and isinstance(pr[0], dict) and pr[0].get("dc") == "Err" and isinstance(pr[1], dict) and pr[1].get("f") == 0 \
+                    and base_ty.startswith("std::result::Result<") and (", " + ty_prefix) in base_ty:
+                pass
+            else:
+                continue
+        elif not base_ty.startswith(ty_prefix):
             continue
         term = ev.place(place, (sb, "T"))
         if not source_pred(term):
